@@ -300,6 +300,22 @@ class Model:
             self._resolve_bases(c)
         for c in self.classes.values():
             c.mro = self._c3(c, [])
+        # a function the rules read whose definition is wrapped by a decorator *defined in the package* does not behave like its
+        # body any more (a guard that skips it, a check placed after it, a cache in front of it): the analysis cannot speak for
+        # it -- fail closed rather than judge the body alone
+        from .known_names import KNOWN_NAMES as _KN
+        for m in self.modules.values():
+            for n in ast.walk(m.tree):
+                if isinstance(n, (ast.FunctionDef, ast.AsyncFunctionDef)) and n.name in _KN:
+                    for d in n.decorator_list:
+                        root = d.func if isinstance(d, ast.Call) else d
+                        while isinstance(root, ast.Attribute):
+                            root = root.value
+                        if isinstance(root, ast.Name):
+                            r = self.resolve_name(m, root.id)
+                            if r is not None and r[0] in ("func", "class") and not (isinstance(d, ast.Attribute) and d.attr in ("setter", "getter", "deleter")):
+                                raise AnalysisError("%s (%s:%d) is wrapped by the package's own decorator %s: what it does is no longer what "
+                                                    "its body says, the rules cannot decide it" % (n.name, m.relpath, n.lineno, ast.unparse(d)[:40]))
         # parent pointers for all AST nodes (used by rules)
         for m in self.modules.values():
             for parent in ast.walk(m.tree):
@@ -433,6 +449,7 @@ class Model:
                 walk(d)
 
     def _resolve_bases(self, c: ClassInfo):
+        from .known_names import KNOWN_CLASSES as KNOWN_CLASSES_
         if c.node is None:
             return
         out = []
@@ -444,6 +461,10 @@ class Model:
                 out.append(r[1])
             elif r and r[0] == "ext" and r[1].split(".")[-1] in BUILTIN_CLASSES:
                 out.append(r[1].split(".")[-1])
+            elif r and r[0] == "ext" and c.name not in KNOWN_CLASSES_:
+                # a *new* helper class built on a class of another library (threading.local, typing.NamedTuple, enum.Enum ...):
+                # the foreign base contributes no method the rules look at
+                out.append("object")
             else:
                 raise AnalysisError("cannot resolve base %s of class %s" % (ast.unparse(b), c.name))
         c.bases = out or ["object"]
